@@ -107,6 +107,14 @@ def failing_opens(ctx, rng, q):
                     nm = "%s#%s%d" % (name, rt, c)
                     inputs[nm] = data[:c]
                     scripts.append((nm, ["store 1 hex %s" % (data[:c].hex() if c else "-"), "open 1 1 r 0 0 0 0 %s" % rt, "close 1"]))
+    # path opens of unrecognised files that have a resource fork side-car ("._name", the SD2 route): rejected at different depths of the fork parser
+    rsrc_ok = bytes.fromhex("000001000000013600000036") + b"\0" * 60
+    for k, main in enumerate([b"", b"junk junk junk junk", bytes(range(64))]):
+        for j, side in enumerate([b"", b"\0", b"\0" * 10, b"\0" * 15, b"\0" * 16, b"\0" * 17, rsrc_ok, rsrc_ok[:40], bytes(rng.below(256) for _ in range(300)), b"\xff" * 64]):
+            nm = "sd2_sidecar#%d_%d" % (k, j)
+            inputs[nm] = main
+            scripts.append((nm, ["store 1 hex %s" % (main.hex() if main else "-"), "sidecar 1 %s" % (side.hex() if side else "-"), "open 1 1 r 0 0 0 0 p", "close 1",
+                                 "store 1 hex %s" % (main.hex() if main else "-"), "sidecar 1 %s" % (side.hex() if side else "-"), "open 2 1 x 0 0 0 0 p", "close 2"]))
     # refused write opens (bad SF_INFO after the handle exists) and refused rdwr opens
     k = 0
     for mj in formats.MAJORS:
